@@ -214,8 +214,121 @@ def run(ck):
     # direct oracle (4): an element that raises on ONE step.  "One element per sweep step": whatever the exception class, the
     # node must fail (the run raises); it must never return a collection / probe list with fewer elements than steps.
     n_or += failing_step_oracle(ck, rng, 30 if thorough else 10)
+    # linear ranges over binary64 (Model/Linspace.v, PrimFloat): the sequence the implementation materialises, the
+    # published <var>_values and the elements, bit for bit
+    n_or += linspace_oracle(ck, rng, 1500 if thorough else 400)
     ck.notes["direct_oracle_runs"] = n_or
     ck.cov["trusted_base"] = c01.TRUSTED
+
+
+LIN_HEADER = """From Coq Require Import List ZArith Bool PrimFloat. Import ListNotations.
+From SV Require Import Model.Linspace.
+Open Scope float_scope.
+Definition cases : list lcase := [
+%s
+].
+Close Scope float_scope.
+Eval vm_compute in map fst (filter (fun ic => lbad (snd ic)) (combine (seq 0 (length cases)) cases)).
+"""
+
+
+def _flit(x):
+    import math
+    x = float(x)
+    if math.isnan(x):
+        return "nan"
+    if math.isinf(x):
+        return "infinity" if x > 0 else "neg_infinity"
+    h = x.hex()
+    return "(-%s)" % h[1:] if h.startswith("-") else h
+
+
+def _rand_bound(rng):
+    k = rng.random()
+    if k < 0.3:
+        return rng.randint(-20, 20)            # YAML integers stay integers
+    if k < 0.55:
+        return float(rng.randint(-20, 20))
+    if k < 0.8:
+        return rng.uniform(-100, 100)
+    if k < 0.9:
+        return rng.uniform(-1, 1) * 10 ** rng.randint(-300, 300)
+    return rng.choice([0.0, -0.0, 5e-324, 1e-310, 2.2250738585072014e-308, 1e308, 0.1, 1 / 3])
+
+
+def linspace_oracle(ck, rng, n):
+    """Linear RangeSpec variables with arbitrary binary64 bounds (ascending, descending, equal, denormal, huge), 1..60
+    steps, with and without endpoint.  Half of the cases ask the implementation's _materialize_sequences directly, the
+    other half run a whole swept source (value = t) from a configuration and read the published t_values and the
+    elements.  Every sequence is compared inside Coq with Model/Linspace.v; numpy.linspace called by the harness is the
+    tie-breaker that tells a wrong model from a wrong implementation."""
+    import numpy as np
+    import semantiva.data_processors.parametric_sweep_factory as psf
+    from semantiva.context_processors import ContextType
+    from semantiva.pipeline import Payload, Pipeline
+    pg.setup_impl()
+    cases, runs = [], 0
+    for trial in range(n):
+        lo, hi = _rand_bound(rng), _rand_bound(rng)
+        if rng.random() < 0.08:
+            hi = lo
+        num = rng.choice([1, 2, 3, 4, 5, 7, 10, 17]) if rng.random() < 0.85 else rng.randint(1, 60)
+        e = rng.random() < 0.6
+        via = "pipeline" if trial % 2 else "materialize"
+        try:
+            with np.errstate(all="ignore"):
+                if via == "materialize":
+                    seqs, created = psf._materialize_sequences(vars={"t": psf.RangeSpec(lo, hi, num, endpoint=e)}, params={})
+                    got, pub, elems = list(seqs["t"]), list(created["t_values"]), None
+                else:
+                    node = {"processor": "FloatValueDataSource",
+                            "derive": {"parameter_sweep": {"parameters": {"value": "t"}, "collection": "FloatDataCollection",
+                                                           "variables": {"t": {"lo": lo, "hi": hi, "steps": num, "endpoint": e}}}}}
+                    res = Pipeline([node]).process(Payload(None, ContextType({})))
+                    pub = list(res.context.get_value("t_values"))
+                    elems = [x.data for x in res.data]
+                    got = pub
+                ref = list(np.linspace(lo, hi, num, endpoint=e))
+        except Exception as exc:  # noqa
+            ck.fail_input("C03:linear-range-rejected", "a linear range lo=%r hi=%r steps=%d endpoint=%s was not materialised: %s: %s" %
+                          (lo, hi, num, e, type(exc).__name__, str(exc)[:200]), {"lo": lo, "hi": hi, "steps": num, "endpoint": e, "via": via})
+            continue
+        runs += 1
+        hx = lambda l: [float(x).hex() for x in l]  # noqa: E731
+        if hx(pub) != hx(got) or (elems is not None and hx(elems) != hx(got)):
+            ck.fail_input("C03:range-values-published-or-elements-differ",
+                          "range lo=%r hi=%r steps=%d endpoint=%s: iterated %s, published t_values %s, elements %s" %
+                          (lo, hi, num, e, hx(got)[:6], hx(pub)[:6], None if elems is None else hx(elems)[:6]),
+                          {"lo": lo, "hi": hi, "steps": num, "endpoint": e, "via": via})
+            continue
+        cases.append((lo, hi, num, e, got, ref, via))
+    lits = ["(%s, %s, %d%%nat, %s, [%s])" % (_flit(lo), _flit(hi), num, "true" if e else "false", "; ".join(_flit(x) for x in got))
+            for lo, hi, num, e, got, ref, via in cases]
+    shards = [LIN_HEADER % ";\n  ".join(lits[i:i + 400]) for i in range(0, len(lits), 400)]
+    per, errs = core.mismatches("C03_linspace", shards, timeout=600)
+    for k, rc, out in errs:
+        ck.corr_problem("linspace shard %d did not evaluate (rc=%s)" % (k, rc), out)
+    bad = []
+    for k, ls in enumerate(per):
+        if ls is not None:
+            bad += [cases[k * 400 + b] for b in ls[0]]
+    for lo, hi, num, e, got, ref, via in bad[:6]:
+        same_as_numpy = [float(x).hex() for x in got] == [float(x).hex() for x in ref]
+        rep = {"lo": lo, "hi": hi, "steps": num, "endpoint": e, "via": via, "implementation": [float(x).hex() for x in got],
+               "numpy_linspace": [float(x).hex() for x in ref]}
+        if same_as_numpy:
+            ck.corr_problem("Model/Linspace.v disagrees with numpy.linspace (and with the implementation, which agrees with numpy)", json.dumps(rep)[:1200])
+        else:
+            ck.fail_input("C03:linear-range-values",
+                          "linear range lo=%r hi=%r steps=%d endpoint=%s materialises %s..., documented lo + i*(hi-lo)/div gives %s..." %
+                          (lo, hi, num, e, [float(x) for x in got][:4], [float(x) for x in ref][:4]), rep)
+    ck.notes["linspace_correspondence"] = {"ranges": len(cases), "disagreements": len(bad),
+                                           "descending": sum(1 for c in cases if float(c[0]) > float(c[1])),
+                                           "via_pipeline": sum(1 for c in cases if c[6] == "pipeline")}
+    ck.cov["evaluations"] = ck.cov.get("evaluations", 0) + len(cases)
+    ck.log("linear ranges: %d/%d float ranges agree bit for bit with Model/Linspace.v (%d descending, %d through a whole pipeline)" %
+           (len(cases) - len(bad), len(cases), ck.notes["linspace_correspondence"]["descending"], ck.notes["linspace_correspondence"]["via_pipeline"]))
+    return runs
 
 
 TYPED_EXPRS = ["t", "int(t)", "t < 2", "t * 2", "t // 2", "abs(t)", "bool(t)", "str(t)", "float(t)", "max(t, s)", "min(t, s)",
